@@ -51,6 +51,27 @@ pub type BatchItem = Item;
 //@extract-type src/batch/mod.rs :: WriteBatch
 //@include spec/batch_spec.rs
 
+// ---- constructors of a batch: what they establish is WriteBatch::wf's durability clause (finding D11)
+//@extract src/batch/mod.rs :: WriteBatch :: new props=C02
+//@contract
+    ensures r.data@.len() == 0, r.durability is None, r.db == db,
+//@end
+//@extract src/batch/mod.rs :: WriteBatch :: durability props=C02+C09
+//@contract
+    ensures r.durability == mode, r.data == self.data, r.db == self.db, // [C09:requested-durability-is-what-commit-uses]
+//@end
+//@extract src/batch/mod.rs :: WriteBatch :: with_capacity props=C02
+//@contract
+    ensures r.data@.len() == 0, r.db == db,
+        // C02: unless the journal is persisted manually, a committed batch is flushed to the OS before it is acknowledged
+        r.durability is None ==> db.config.manual_journal_persist, // [C02:public-batch-constructor-flushes-unless-manual-persist]
+//@end
+//@extract src/db.rs :: Database :: batch props=C02
+//@contract
+    ensures r.data@.len() == 0, r.db == *self,
+        r.durability is None ==> self.config.manual_journal_persist, // [C02:public-batch-constructor-flushes-unless-manual-persist]
+//@end
+
 //@extract src/batch/mod.rs :: WriteBatch :: len props=C03
 //@contract
     ensures r == self.data@.len(),
